@@ -154,6 +154,10 @@ impl P19 {
                 }
             }
         }
+        // records longer than the default snap length of a newly written file (65535)
+        cases.push(Case::File(vec![3, 70000, 2], true, 2));
+        cases.push(Case::File(vec![70000], false, 0));
+        cases.push(Case::File(vec![65535, 65536], false, 2));
         let trunc_recs = make_recs(&[1, 60, 20]);
         let trunc_file = pcap_bytes(MAGIC_US, 65535, 1, &trunc_recs);
         for cut in 0..trunc_file.len() {
@@ -169,6 +173,7 @@ impl P19 {
 /// read everything with alternating calls; returns the texts of the records delivered and the final result
 fn drain(vm: &crate::vm::interpreter::VM, f: &Rc<Object>, use_all: bool) -> Result<(Vec<String>, String), String> {
     let mut got = vec![];
+    let mut end = String::from("more");
     if use_all {
         let r = (builtin("pcap_read_all"))(vec![f.clone()])?;
         match r.as_ref() {
@@ -176,23 +181,44 @@ fn drain(vm: &crate::vm::interpreter::VM, f: &Rc<Object>, use_all: bool) -> Resu
                 for x in a.elements.borrow().iter() {
                     got.push(packet_text(vm, x));
                 }
-                Ok((got, "end".into()))
+                end = "end".into();
             }
-            Object::Err(_) => Ok((got, "error".into())),
-            o => Ok((got, canon(o))),
+            Object::Err(_) => end = "error".into(),
+            o => end = canon(o),
         }
     } else {
         for _ in 0..10 {
             let r = (builtin("pcap_read_next"))(vec![f.clone()])?;
             match r.as_ref() {
                 Object::Packet(_) => got.push(packet_text(vm, &r)),
-                Object::Null => return Ok((got, "null".into())),
-                Object::Err(_) => return Ok((got, "error".into())),
-                o => return Ok((got, canon(o))),
+                Object::Null => {
+                    end = "null".into();
+                    break;
+                }
+                Object::Err(_) => {
+                    end = "error".into();
+                    break;
+                }
+                o => {
+                    end = canon(o);
+                    break;
+                }
             }
         }
-        Ok((got, "more".into()))
     }
+    // once the end (or the damage) was reported nothing more may be delivered
+    for probe in ["pcap_read_next", "pcap_read_all", "pcap_read_next"] {
+        let r = (builtin(probe))(vec![f.clone()])?;
+        let more = match r.as_ref() {
+            Object::Packet(_) => true,
+            Object::Arr(a) => !a.elements.borrow().is_empty(),
+            _ => false,
+        };
+        if more {
+            return Ok((got, format!("a record delivered by {} after the end had been reported", probe)));
+        }
+    }
+    Ok((got, end))
 }
 
 impl Property for P19 {
@@ -312,11 +338,7 @@ impl Property for P19 {
                         }
                         let (got, end) = drain(&vm, &f, use_all)?;
                         runs += 1;
-                        // pcap_read_all may answer with an error object instead of the records before the damage;
-                        // what must never happen is a wrong or an extra record
-                        if use_all && end == "error" {
-                            continue;
-                        }
+                        // (an error object instead of the array is fine only when there is no record before the damage)
                         if got != want {
                             return Err(format!("cut at {} ({} complete records): {} delivered {} records: {:?}", cut, complete, if use_all { "pcap_read_all" } else { "pcap_read_next" }, got.len(), got));
                         }
@@ -380,8 +402,8 @@ impl Property for P19 {
                         }
                         let (got, end) = drain(&vm, &f, use_all)?;
                         runs += 1;
-                        if use_all && end == "error" {
-                            continue;
+                        if !(end == "null" || end == "error" || end == "end") {
+                            return Err(format!("{}: reading ended with {}", what, end));
                         }
                         // the records before the damage, and nothing that is not in the file
                         if got.len() < want.len() || got[..want.len()] != want[..] {
